@@ -5,6 +5,7 @@ from __future__ import annotations
 from contextlib import suppress
 from typing import TYPE_CHECKING
 
+from _griffe.enumerations import Kind
 from _griffe.exceptions import AliasResolutionError, CyclicAliasError
 from _griffe.logger import logger
 
@@ -49,7 +50,10 @@ def _merge_stubs_overloads(obj: Module | Class, stubs: Module | Class) -> None:
     for function_name, overloads in list(stubs.overloads.items()):
         if overloads:
             with suppress(KeyError):
-                obj.get_member(function_name).overloads = overloads
+                member = obj.get_member(function_name)
+                # Only functions can receive overloads; never trigger (possibly failing) alias resolution.
+                if (not member.is_alias or member.resolved) and member.kind is Kind.FUNCTION:
+                    member.overloads = overloads
         del stubs.overloads[function_name]
 
 
